@@ -243,6 +243,23 @@ def _pretty_pobj(v, ctx):
     return prettyprinter.pretty_call_alt(ctx, _PObj, args=tuple(v.items))
 
 
+class _BNBase:
+    """printer registered BY NAME for this base class; only instances of the SUBCLASS are ever printed, so the pending registration is always
+    resolved through a supertype"""
+
+    def __init__(self):
+        self.items = []
+
+
+class _BNSub(_BNBase):
+    pass
+
+
+@prettyprinter.register_pretty(__name__ + '._BNBase')
+def _pretty_bnbase(v, ctx):
+    return prettyprinter.pretty_call_alt(ctx, type(v), args=tuple(v.items))
+
+
 import dataclasses as _dcs
 
 
@@ -276,11 +293,15 @@ def _pretty_fails(v, ctx):
 
 
 _FAIL_OCC = []
-EXOTIC = ['fails', 'odict', 'ddict', 'deque', 'chainmap', 'ns', 'uobj', 'dsub', 'lsub', 'ntlist', 'exc', 'list', 'dict', 'pobj', 'dcnode', 'pobj', 'dcnode']
+EXOTIC = ['bnsub', 'bnsub', 'fails', 'odict', 'ddict', 'deque', 'chainmap', 'ns', 'uobj', 'dsub', 'lsub', 'ntlist', 'exc', 'list', 'dict', 'pobj', 'dcnode', 'pobj', 'dcnode']
 
 
 def make_exotic(kind, i):
     """returns (node object, add(child))"""
+    if kind == 'bnsub':
+        o = _BNSub()
+        o.items.append(i)
+        return o, o.items.append
     if kind == 'fails':
         return _Fails(i), lambda ch: None
     if kind == 'odict':
@@ -351,7 +372,7 @@ def exotic_children(o):
         return [getattr(o, k) for k in sorted(vars(o))]
     if isinstance(o, _UObj):
         return list(o.args) + list(o.kwargs.values())
-    if isinstance(o, _PObj):
+    if isinstance(o, (_PObj, _BNBase)):
         return list(o.items)
     if isinstance(o, _DCNode):
         return [o.tag] + ([o.children] if o.children != [] else [])
